@@ -375,6 +375,9 @@ func writeLinkEvents(dir string, opts GlobalOptions, eventType string, edges []s
 					graph.Deps[from] = map[string]struct{}{}
 				}
 				graph.Deps[from][to] = struct{}{}
+				if hasWaitCycle(graph) {
+					return errWaitCycle
+				}
 			} else if graph.Deps[from] != nil {
 				delete(graph.Deps[from], to)
 			}
@@ -457,6 +460,14 @@ func createTaskWithDir(dir string, opts GlobalOptions, lockPath, eventsPath, epi
 		eventType := "new_task"
 		if isEpic {
 			eventType = "new_epic"
+		}
+		if !isEpic && payload.EpicID != "" {
+			// Joining an epic makes everything that waits for that epic wait for
+			// this task too.
+			graph.Tasks[id] = &Task{ID: id, EpicID: payload.EpicID}
+			if hasWaitCycle(graph) {
+				return errWaitCycle
+			}
 		}
 		event, err := newEvent(eventType, now, payload)
 		if err != nil {
